@@ -20,7 +20,7 @@ RULE = (
     "and without blanks, followed by a @sealed line; (b) 12 valid seed definitions x every single token deletion / duplication / "
     "adjacent swap / replacement by every alphabet token (thorough: double mutations of 3 seeds); (c) arithmetic catalogue: every "
     "binary operator x operand pairs from 13 corner values, every \\\\uXXXX / \\\\UXXXXXXXX boundary escape in five contexts, nesting "
-    "depths 1..100 of four bracket kinds and operator chains up to 400, 16 exotic operands (types, sets of types / sets / the offset set) under every attribute, unary and binary operator and in every sink; (d) 60 well- and ill-formed file names and pairs of files "
+    "depths 1..100 of four bracket kinds and operator chains up to 400, 21 exotic operands (types, sets of types / of array types / sets / the offset set) under every attribute, unary and binary operator and in every sink; (d) 60 well- and ill-formed file names and pairs of files "
     "encoding the same (name, version); (e) magnitudes: 9 astronomically large values (10**5000, 2**64, 2**70, negative, non-integer ...) in each of 23 numeric "
     "sinks (capacities, extents, initializers, directive operands, layout intrinsics) x 20 follow-ups that make the reader report another error while "
     "the value is part of the model, plus minor-version pairs and dependencies carrying such values. Non-trivial iff the text is not a valid definition or is a mutation of a seed; distinct "
@@ -133,7 +133,8 @@ def catalogue():
             out.append(use + "\n" + after + ("\n@sealed\n" if "@extent" not in after else "\n"))
             out.append("uint8 before\n" + use + "\n" + after + ("\n@sealed\n" if "@extent" not in after else "\n"))
     # exotic operands: types, sets of types, sets of sets, the offset set - under every attribute, unary and binary operator
-    exotic = ["uint8", "Dep.1.0", "Svc.1.0", "{uint8, uint16}", "{{1, 2}, {3}}", "{_offset_, {0, 8}}", "_offset_", "{true, false}", "{'a', 'b'}", "{1, 2}", "'a'", "true", "1", "{Dep.1.0}", "uint8[2]", "{1.5}"]
+    exotic = ["uint8", "Dep.1.0", "Svc.1.0", "{uint8, uint16}", "{{1, 2}, {3}}", "{_offset_, {0, 8}}", "_offset_", "{true, false}", "{'a', 'b'}", "{1, 2}", "'a'", "true", "1", "{Dep.1.0}", "uint8[2]", "{1.5}",
+              "{float32[<=2]}", "{uint8[4], uint8[8]}", "{Dep.1.0[2], Dep.1.0[<=2]}", "{void3, bool}", "{utf8[<=2], byte[2]}"]
     for a in exotic:
         for attr in (".min", ".max", ".count", "._bit_length_", "._extent_", ".foo", ".K", ".v", ".a", ".request", ".Request", "._offset_", ".1", ""):
             out.append("@print (%s)%s\n@sealed\n" % (a, attr))
@@ -151,7 +152,9 @@ def catalogue():
 # ---------------------------------------------------------------------------------------------------------------
 # magnitudes: astronomically large (but cheaply written) numbers in every numeric sink of a definition, combined with every
 # follow-up that makes the reader report an error while such a number is part of the model (the message must still be built)
-HUGE = ["10**5000", "8 * 10**5000", "(10**5000 + 1)", "-(10**5000)", "(10**5000 / 3)", "2**64", "(2**64 - 8)", "2**70", "2**4300 * 8"]
+HUGE = ["10**5000", "8 * 10**5000", "(10**5000 + 1)", "-(10**5000)", "(10**5000 / 3)", "2**64", "(2**64 - 8)", "2**70", "2**4300 * 8",
+        # right at the interpreter's limit for converting integers to decimal text (4300 digits): the largest that converts, the smallest that does not, a few beyond
+        "(10**4300 - 8)", "10**4300", "8 * 10**4306", "10**4314"]
 SINKS = [
     "uint8[%s] x", "uint8[<=%s] x", "uint8[<%s] x", "bool[%s] x", "void8[%s] x", "utf8[%s] x", "utf8[<=%s] x", "byte[%s] x", "Dep.1.0[%s] x", "Dep.1.0[<=%s] x",
     "uint8[%s] x\n@print _offset_", "uint8[%s] x\n@assert _offset_ % 8 == {0}", "bool[%s] x\nuint8 y\n@assert _offset_.min > 0", "@print uint8[%s]._bit_length_", "@union\nuint8[%s] x\nuint8 y\n@assert _offset_.min > 0",
